@@ -175,7 +175,18 @@ def build_alphabet(m, ents, rng=None, small=False):
         add("find", X.meth(X.sid(s), "siblings"))
         add("find_one", X.meth(X.sid(s), "get_last", keys[-3]))
     # material for scripted episodes (see HistoryProfile.episode)
-    G.append({"tag": "episode_material", "material": True, "finders": finders, "f": f,
+    ors = []
+    mem = sorted(set(m.alias.get(alias, []))) if m.alias else []
+    if mem:
+        ors.append(("/".join(segs[:-1] + [alias]), ["/".join(segs[:-1] + [x]) for x in mem]))
+        ors.append(("/".join(segs[:-1] + [",".join(mem[:3])]), ["/".join(segs[:-1] + [x]) for x in mem[:3]]))
+    for j in range(1, len(segs) - 1):
+        # a ',' list at a closed level, with '*' behind it: '.../model,rig/*'
+        vals = [v for v in (m.vocab(tn, keys[j])[1] if m.vocab(tn, keys[j])[0] == "closed" else []) if v != segs[j]][:2]
+        if vals:
+            alts = [segs[j]] + vals
+            ors.append(("/".join(segs[:j] + [",".join(alts)] + ["*"]), ["/".join(segs[:j] + [a] + ["*"]) for a in alts]))
+    G.append({"tag": "episode_material", "material": True, "finders": finders, "f": f, "ors": ors,
               "partial": [last, last, last, const, const, wide, dstar, star2], "plain": [star, star2, dstar, f, last, const]})
     return A, G
 
@@ -288,6 +299,27 @@ class HistoryProfile(StoreProfile):
         if not mat:
             return None
         mat = mat[0]
+        if mat.get("ors") and rng.random() < 0.3:
+            # (c) in a new process: a search with alternatives (',' list / alias), then each alternative ALONE for the first
+            # time -- through the unfolding, a finder and the Sid's own exists / children
+            s_or, alts = rng.choice(mat["ors"])
+            Fo = rng.choice(mat["finders"])
+            steps = [{"op": "restart"},
+                     {"op": "call", "tag": rng.choice(["find", "unfold"]), "e": None}]
+            steps[1]["e"] = X.meth(Fo, "find", s_or) if steps[1]["tag"] == "find" else X.call("unfold_search", s_or)
+            order = list(alts)
+            rng.shuffle(order)
+            for a in order[:3]:
+                kind = rng.choice(["unfold", "find", "sid"])
+                if kind == "unfold":
+                    steps.append({"op": "call", "tag": "unfold", "e": X.call("unfold_search", a)})
+                elif kind == "find":
+                    steps.append({"op": "call", "tag": "find", "e": X.meth(rng.choice(mat["finders"]), "find", a)})
+                else:
+                    steps.append({"op": "call", "tag": "find", "e": X.meth(X.sid(a), "exists")})
+                    steps.append({"op": "call", "tag": "find", "e": X.meth(X.sid(a.rsplit("/", 1)[0]), "children")})
+            run.probes["episode_alternatives_then_each_alone"] += 1
+            return steps
         held = [F for F in mat["finders"] if "$h" in F]
         F = rng.choice(held) if held and rng.random() < 0.66 else rng.choice(mat["finders"])
         s1 = rng.choice(mat["partial"])
